@@ -231,6 +231,12 @@ func (x *Exec) alloc(fr *Frame, st *State, v *ssa.Alloc) {
 	p := Val{T: ref, Typ: v.Type()}
 	x.storePtr(st, p, t, x.zeroOf(t))
 	fr.vals[v] = p
+	if _, isStruct := asStruct(t); !isStruct {
+		if _, isArr := t.Underlying().(*types.Array); !isArr && addrPrivate(v, 0) {
+			hn, _ := x.S.CellHeapT(t)
+			x.privCells = append(x.privCells, privCell{heap: hn, ref: ref})
+		}
+	}
 }
 
 func (x *Exec) markAlloc() {
